@@ -306,11 +306,24 @@ def e2e_case(case):
     times = {}
     streams = {}
     try:
-        async def one(k):
+        clients = {}
+
+        async def login(k):
             c = a.Client(path_io_factory=a.MemoryPathIO, **ckw)
             await c.connect("127.0.0.1", 2121)
             streams[k] = [c.stream.writer.transport]
             await c.login(f"u{k % nusers}", "")
+            clients[k] = c
+
+        async def churn(k):
+            # another connection of the same user comes and goes while the measured ones stay logged in
+            c = a.Client(path_io_factory=a.MemoryPathIO, **ckw)
+            await c.connect("127.0.0.1", 2121)
+            await c.login(f"u{k % nusers}", "")
+            await c.quit()
+
+        async def one(k):
+            c = clients[k]
             t_begin = w.loop.time()
             if direction == "download":
                 got = bytearray()
@@ -330,6 +343,12 @@ def e2e_case(case):
             return ok
 
         async def main():
+            if case.get("churn"):
+                for k in range(nconn):
+                    await login(k)
+                    await churn(k)
+            else:
+                await asyncio.gather(*[login(k) for k in range(nconn)])
             return await asyncio.gather(*[one(k) for k in range(nconn)])
 
         problems = []
@@ -472,6 +491,10 @@ def e2e_items(tier):
                     continue
                 for size in sizes:
                     cases.append({"levels": levels, "direction": direction, "nconn": nconn, "nusers": nusers, "size": size})
+                if len(levels) == 1 and nconn > 1:
+                    # the same, with other connections of the same users logging in and out in between
+                    cases.append({"levels": levels, "direction": direction, "nconn": nconn, "nusers": nusers,
+                                  "size": sizes[0], "churn": True})
     for direction in ("download", "upload"):
         for nconn in (1, 2):
             cases.append({"levels": [], "direction": direction, "nconn": nconn, "nusers": 1, "size": 20 * BLOCK})
@@ -495,7 +518,7 @@ def run(tier, seed, t0):
                       "configs": ["single", "two-throttles", "unlimited/zero/opposite", "setter/clone mid-sequence",
                                   "shared vs cloned (two concurrent streams)"]},
               "e2e": {"levels": LEVELS, "pairs": "all ordered pairs (first = tightest)", "directions": ["download", "upload"],
-                      "connections_users": [(1, 1), (2, 1), (2, 2), (3, 2)], "sizes": [BLOCK, 3 * BLOCK + 1, 20 * BLOCK],
+                      "connections_users": [(1, 1), (2, 1), (2, 2), (3, 2)], "churn": "extra connections of the same users log in and out between the logins of the measured ones", "sizes": [BLOCK, 3 * BLOCK + 1, 20 * BLOCK],
                       "limit": LIM, "cases": ncases}}
     return report.finish(
         PID, tier, seed, "model_checking", part, t0,
